@@ -27,16 +27,17 @@ for log in sorted(glob.glob(os.path.join(ROOT, ".work", "mut_*.log")), key=os.pa
 NEEDS = json.load(open(os.path.join(ROOT, "tools", "seeded_needs.json"))) if os.path.exists(os.path.join(ROOT, "tools", "seeded_needs.json")) else {}
 index = []
 for d in sorted(glob.glob(os.path.join(RAW, "*", "m*"))):
-    pid = os.path.basename(os.path.dirname(d))
+    pdir = os.path.basename(os.path.dirname(d))
+    pid = pdir.rstrip("b")  # third-wave directories are named <PID>b
     mn = os.path.basename(d)
-    key = "%s/%s" % (pid, mn)
+    key = "%s/%s" % (pdir, mn)
     cf = os.path.join(d, "confirm.json")
     if not os.path.exists(cf):
         continue
     conf = json.load(open(cf))
     if not conf.get("confirmed"):
         continue
-    sid = "%s-%s" % (pid, mn)
+    sid = "%s-%s" % (pdir, mn)
     dst = os.path.join(OUT, sid)
     os.makedirs(dst, exist_ok=True)
     for f in ("patch.diff", "demo.py", "notes.md", "patch_on_c0aa3e9.diff"):
@@ -50,6 +51,7 @@ for d in sorted(glob.glob(os.path.join(RAW, "*", "m*"))):
         "breaks_property": pid,
         "needs_to_manifest": NEEDS.get(key, {}).get("needs", "see notes.md"),
         "changed": NEEDS.get(key, {}).get("changed", "see patch.diff"),
+        "written_against_commit": conf.get("base_commit", "c38f85e"),
         "confirmed_by": "tools/confirm_mutant.sh in a scratch worktree of /repo: patch applies; %d/%d baseline tests pass with the patch; demo.py exits %d without and %d with the patch" % (
             conf["baseline_tests_passing_with_patch"], conf["baseline_tests"], conf["demo_exit_clean"], conf["demo_exit_mutated"]),
         "checks_run": {c: v for c, v in sorted(det.items())},
